@@ -68,7 +68,7 @@ func LoadEngine(repo string, patterns []string, opts Options) (*Engine, error) {
 		Dir:        repo,
 		Fset:       e.fset,
 		BuildFlags: []string{"-tags=verif"},
-		Env:        append(os.Environ(), "GOFLAGS=-mod=mod", "GOPROXY=off", "GOSUMDB=off", "GOTOOLCHAIN=local"),
+		Env:        append(os.Environ(), "GOFLAGS=-mod=mod", "GOPROXY=off", "GOSUMDB=off", "GOTOOLCHAIN=local", "PATH=/opt/veriftools/go1.26.8/bin:"+os.Getenv("PATH")),
 	}
 	pkgs, err := packages.Load(cfg, patterns...)
 	if err != nil {
